@@ -11,8 +11,10 @@
 (*         text back                                                           *)
 (*   bin   a definition stored in the binary database and loaded again must be *)
 (*         BinDecay of the original                                            *)
-(*   order the entity order of a whole-file export: bases first, each batch    *)
-(*         sorted by class name; and the file is the concatenation of parts    *)
+(*   file  steps of the whole bundled database as one file: entity order       *)
+(*         (bases first, each batch sorted by class name), the file being the  *)
+(*         concatenation of the entity parts, parse, and the generations       *)
+(*         text1/text2/text3                                                   *)
 EXTENDS FgdDocOps, Json, IOUtils
 
 Recs == ndJsonDeserialize(IOEnv.TRACE_FILE)
@@ -106,11 +108,26 @@ OrderFails(r) ==
         LET RECURSIVE Sum(_)
             Sum(k) == IF k = 0 THEN 0 ELSE o[k].len + 1 + Sum(k - 1)
         IN IF r.header + Sum(n) # r.total THEN {F("file.length", r.header + Sum(n))} ELSE {}}
+\* text1 -> parse -> text2 -> parse -> text3.  mode "default": bases are resolved while
+\* reading (FGD.parse's default); mode "names": eval_bases=False, bases stay class names.
+\* Whatever the mode: the second export must be the first, it must be readable the default
+\* way, from the second generation on the text is a fixed point, and the entity blocks of
+\* the two texts are the same multiset (so a pure reordering is told apart from a change
+\* of content).
+BagOf(q) == [h \in {q[k] : k \in 1..Len(q)} |-> Cardinality({k \in 1..Len(q) : q[k] = h})]
+GenFails(r) ==
+    LET pre == IF r.mode = "default" THEN "file.reexport" ELSE "file.names" IN
+    IF r.err # "" THEN {F(pre \o ".error", "no error")}
+    ELSE UNION {
+        IF r.h2 # r.h1 THEN {F(pre \o ".same", r.h1)} ELSE {},
+        IF r.default_parse # "" THEN {F(pre \o ".readable", "no error")} ELSE {},
+        IF r.h3 # r.h2 THEN {F(pre \o ".fixpoint", r.h2)} ELSE {},
+        IF BagOf(r.blocks2) # BagOf(r.blocks1) THEN {F(pre \o ".blocks", Len(r.blocks1))} ELSE {}}
 FileFails(r) ==
     CASE r.step = "order" -> OrderFails(r)
       [] r.step = "parse" -> IF r.err # "" THEN {F("file.parse", "no error")}
                              ELSE IF r.count # r.want THEN {F("file.count", r.want)} ELSE {}
-      [] r.step = "reexport" -> IF r.h1 # r.h2 THEN {F("file.reexport", r.h1)} ELSE {}
+      [] r.step = "generations" -> GenFails(r)
       [] r.step = "load" -> IF r.count # r.want THEN {F("file.load", r.want)} ELSE {}
 
 Fails(r) == CASE r.k = "ent" -> EntFails(r)
